@@ -290,9 +290,35 @@ struct SpaceOut {
     counterexample: Option<(Vec<Op>, String, Vec<u64>, Vec<Vec<u64>>)>,
 }
 
+/// two different items whose per-item uniform value is bit-identical (exists within a few thousand items for f32 registers):
+/// with size-1 sketches they tie at the bin minimum, so the order of the two and the entry point used must not matter
+/// beyond what item-wise streaming does
+fn find_tie_pair<S: Dens>(base: u64) -> Option<(u64, u64)> {
+    let mut seen: std::collections::HashMap<u64, u64> = std::collections::HashMap::new();
+    for x in base..base + 20_000 {
+        let mut s = S::new(1);
+        s.sketch(&x);
+        let r = s.state().hs[0];
+        if let Some(y) = seen.get(&r) {
+            return Some((*y, x));
+        }
+        seen.insert(r, x);
+    }
+    None
+}
+
 fn explore<S: Dens + 'static>(m: usize, base: u64, max_depth: Option<usize>) -> Result<SpaceOut, String> {
-    let witnesses = find_witnesses::<S>(m, base).ok_or("no witnesses found")?;
+    let mut witnesses = find_witnesses::<S>(m, base).ok_or("no witnesses found")?;
+    let tie = if m <= 2 { find_tie_pair::<S>(base) } else { None };
+    if let Some((a, b)) = tie {
+        witnesses.push(a);
+        witnesses.push(b);
+    }
     let mut chunks: Vec<Vec<u64>> = vec![vec![], vec![witnesses[0]]];
+    if let Some((a, b)) = tie {
+        chunks.push(vec![a, b]);
+        chunks.push(vec![b, a]);
+    }
     if witnesses.len() >= 3 {
         chunks.push(vec![witnesses[1], witnesses[2]]);
         chunks.push(vec![witnesses[witnesses.len() - 1], witnesses[0], witnesses[witnesses.len() - 1]]);
